@@ -135,7 +135,7 @@ impl Exec {
     /// caller can take from a package text to a level - `PriceLevel::from_snapshot_json`; `PriceLevelSnapshotPackage::
     /// from_json` + `into_snapshot` + `PriceLevel::from(&snapshot)`; `from_json` + `PriceLevel::from_snapshot_package` -
     /// must all decide alike; each outcome that differs from the first is compared with the model and judged as well.
-    fn restore_bytes(&mut self, f: &[u8]) {
+    fn restore_bytes(&mut self, f: &[u8], honest: bool) {
         let show = |r: Result<Result<PriceLevel, pricelevel::PriceLevelError>, Box<dyn std::any::Any + Send>>| match r {
             Ok(Ok(l)) => format!("restored ok {}", show_state_content(&l)),
             Ok(Err(_)) => "restored err".to_string(),
@@ -172,7 +172,10 @@ impl Exec {
                 self.emit(format!("pkg.raw h{}", crate::codec::hex_bytes(f)), "raw");
             }
             let fhex = match std::str::from_utf8(f) { Ok(t) => crate::codec::hex(t), Err(_) => "-".to_string() };
-            self.emit(format!("judge.C09 {} {} {}", self.pkg_content, fhex, outcome), "J C09 ok");
+            // an honest package of OTHER content (`pkg.honest`) is not a damaged copy of the one made: C09's judge is not asked
+            if !honest {
+                self.emit(format!("judge.C09 {} {} {}", self.pkg_content, fhex, outcome), "J C09 ok");
+            }
             self.emit(format!("judge.C18 {}", outcome), "J C18 ok");
         }
     }
@@ -817,12 +820,18 @@ impl Exec {
                 if f == self.pkg_text.as_bytes() {
                     return true; // not a change
                 }
-                self.restore_bytes(&f);
+                self.restore_bytes(&f, false);
             }
             // replay forms: the damaged text itself (what `pkg.fault` handed to the model)
             ["pkg.restore", h] | ["pkg.raw", h] => {
                 match crate::codec::unhex_bytes(h.strip_prefix('h').unwrap_or(h)) {
-                    Some(f) => self.restore_bytes(&f),
+                    Some(f) => self.restore_bytes(&f, false),
+                    None => self.emit(line, "harness-bad-op"),
+                }
+            }
+            ["pkg.honest", h] => {
+                match crate::codec::unhex_bytes(h) {
+                    Some(f) => self.restore_bytes(&f, true),
                     None => self.emit(line, "harness-bad-op"),
                 }
             }
